@@ -132,10 +132,6 @@ fn create_next_state<C: ContentAddrStore>(
                     .insert_coin(coinid, coin_data.clone(), is_tip_906);
             }
         }
-        for coinid in tx.inputs.iter() {
-            next_state.coins.remove_coin(*coinid, is_tip_906);
-        }
-
         // fees
         let min_fee = tx.base_fee(next_state.fee_multiplier, 0, |c| {
             covenant_weight_from_bytes(c)
@@ -148,6 +144,14 @@ fn create_next_state<C: ContentAddrStore>(
             next_state.fee_pool.0 = next_state.fee_pool.0.saturating_add(min_fee.0);
         }
         next_state.transactions.insert(tx.clone());
+    }
+    // Inputs are removed only after every output of the batch has been inserted: a transaction may spend an
+    // output of a member that comes later in `transactions`, and removing it before it is inserted would leave
+    // the spent coin in the tree, making the result depend on the order of the batch.
+    for tx in transactions {
+        for coinid in tx.inputs.iter() {
+            next_state.coins.remove_coin(*coinid, is_tip_906);
+        }
     }
     Ok(next_state)
 }
